@@ -148,4 +148,187 @@ theorem reduce3_mem_partial (s s' : Vs3 K) (p : V3 K) (hok : Vs3Ok s) (hd : s.di
   · exact Or.inr (Or.inl ⟨h1, C05.seg3_project_mem sq _ _⟩)
   · exact Or.inr (Or.inr ⟨h2, C05.tri3_project_mem sq _ _ true (hok h2)⟩)
 
+/-- `c` is one of the `dim + 1` live vertices of `s` -/
+def Live2 (s : Vs2 K) (c : CSO2 K) : Prop := c = s.v0 ∨ (1 ≤ s.dim ∧ c = s.v1) ∨ (2 ≤ s.dim ∧ c = s.v2)
+
+/-- **the kept sub-simplex contains the returned point, with the stored barycentric weights** (2-D): after the reduction the
+simplex is either one old vertex `= p` with weight 1, or an edge between two old vertices with non-negative weights
+`proj[0] + proj[1] = 1` and `p = proj[0]·v0 + proj[1]·v1`, or the untouched full triangle, in which case the origin is inside and
+`p` is the origin itself. -/
+theorem reduce2_kept (s s' : Vs2 K) (p : V2 K) (hok : Vs2Ok s) :
+    letI := fieldNum K sq
+    s.projectOriginAndReduce = some (s', p) →
+    (s'.dim = 0 ∧ s'.p0 = 1 ∧ p = s'.v0.point ∧ Live2 s s'.v0) ∨
+    (s'.dim = 1 ∧ 0 ≤ s'.p0 ∧ 0 ≤ s'.p1 ∧ s'.p0 + s'.p1 = 1 ∧ p = (s'.v0.point.smul s'.p0).add (s'.v1.point.smul s'.p1)
+        ∧ Live2 s s'.v0 ∧ Live2 s s'.v1) ∨
+    (s'.dim = 2 ∧ s' = s ∧ p = V2.zero) := by
+  letI := fieldNum K sq
+  intro h
+  unfold Vs2.projectOriginAndReduce at h
+  split_ifs at h with h0 h1 h2
+  · simp only [Option.some.injEq, Prod.mk.injEq] at h
+    obtain ⟨rfl, rfl⟩ := h
+    exact Or.inl ⟨h0, rfl, rfl, Or.inl rfl⟩
+  · dsimp only at h
+    have hl := C05.seg2_location_sound sq ⟨s.v0.point, s.v1.point⟩ V2.zero
+    generalize Segment2.projectLoc ⟨s.v0.point, s.v1.point⟩ V2.zero = r at h hl
+    obtain ⟨pp, loc⟩ := r
+    cases loc with
+    | vertex i =>
+      dsimp only at hl h
+      rcases hl with ⟨rfl, e⟩ | ⟨rfl, e⟩
+      · simp only [Option.some.injEq, Prod.mk.injEq] at h
+        obtain ⟨rfl, rfl⟩ := h
+        exact Or.inl ⟨rfl, rfl, e, Or.inl rfl⟩
+      · simp only [Option.some.injEq, Prod.mk.injEq] at h
+        obtain ⟨rfl, rfl⟩ := h
+        exact Or.inl ⟨rfl, rfl, e, Or.inr (Or.inl ⟨by omega, rfl⟩)⟩
+    | edge b0 b1 =>
+      dsimp only at hl h
+      simp only [Option.some.injEq, Prod.mk.injEq] at h
+      obtain ⟨rfl, rfl⟩ := h
+      obtain ⟨hb0, hb1, hs, e⟩ := hl
+      exact Or.inr (Or.inl ⟨h1, hb0, hb1, hs, e, Or.inl rfl, Or.inr (Or.inl ⟨by omega, rfl⟩)⟩)
+  · dsimp only at h
+    have hl := C05.tri2_location_sound sq ⟨s.v0.point, s.v1.point, s.v2.point⟩ V2.zero true
+    have hc := C05.tri2_location_contains sq ⟨s.v0.point, s.v1.point, s.v2.point⟩ V2.zero true (hok h2)
+    generalize Triangle2.projectLoc ⟨s.v0.point, s.v1.point, s.v2.point⟩ V2.zero true = r at h hl hc
+    obtain ⟨pp, loc⟩ := r
+    cases loc with
+    | vertex i =>
+      dsimp only at hl hc h
+      rcases hl with ⟨rfl, e⟩ | ⟨rfl, e⟩ | ⟨rfl, e⟩
+      · norm_num at h
+        obtain ⟨rfl, rfl⟩ := h
+        exact Or.inl ⟨rfl, rfl, e, Or.inl rfl⟩
+      · norm_num at h
+        obtain ⟨rfl, rfl⟩ := h
+        exact Or.inl ⟨rfl, rfl, e, Or.inr (Or.inl ⟨by omega, rfl⟩)⟩
+      · norm_num at h
+        obtain ⟨rfl, rfl⟩ := h
+        exact Or.inl ⟨rfl, rfl, e, Or.inr (Or.inr ⟨by omega, rfl⟩)⟩
+    | edge i b0 b1 =>
+      dsimp only at hl hc h
+      obtain ⟨_, hb0, hb1⟩ := hc
+      obtain ⟨hs, ⟨rfl, e⟩ | ⟨rfl, e⟩ | ⟨rfl, e⟩⟩ := hl
+      · simp only [Option.some.injEq, Prod.mk.injEq] at h
+        obtain ⟨rfl, rfl⟩ := h
+        exact Or.inr (Or.inl ⟨rfl, hb0, hb1, hs, e, Or.inl rfl, Or.inr (Or.inl ⟨by omega, rfl⟩)⟩)
+      · simp only [Option.some.injEq, Prod.mk.injEq] at h
+        obtain ⟨rfl, rfl⟩ := h
+        refine Or.inr (Or.inl ⟨rfl, hb1, hb0, by linarith, ?_, Or.inr (Or.inr ⟨by omega, rfl⟩), Or.inr (Or.inl ⟨by omega, rfl⟩)⟩)
+        rw [e]
+        apply C05.v2_ext <;> simp only [V2.add, V2.smul, Vs2.swap, Vs2.get, Vs2.set, Vs2.setPv, Vs2.getPv] <;> ring
+      · simp only [Option.some.injEq, Prod.mk.injEq] at h
+        obtain ⟨rfl, rfl⟩ := h
+        exact Or.inr (Or.inl ⟨rfl, hb0, hb1, hs, e, Or.inl rfl, Or.inr (Or.inr ⟨by omega, rfl⟩)⟩)
+    | face sd b0 b1 b2 => exact absurd hc (by simp)
+    | solid =>
+      dsimp only at hl h
+      simp only [Option.some.injEq, Prod.mk.injEq] at h
+      obtain ⟨rfl, rfl⟩ := h
+      exact Or.inr (Or.inr ⟨h2, rfl, hl.1⟩)
+
+/-- **the kept sub-simplex contains the returned point** (2-D): `p` is in the hull of the live vertices after the reduction -/
+theorem reduce2_kept_contains (s s' : Vs2 K) (p : V2 K) (hok : Vs2Ok s) :
+    letI := fieldNum K sq
+    s.projectOriginAndReduce = some (s', p) → Hull2 sq s' p := by
+  letI := fieldNum K sq
+  intro h
+  rcases reduce2_kept sq s s' p hok h with ⟨d, _, e, _⟩ | ⟨d, h0, h1, hs, e, _, _⟩ | ⟨d, hss, e⟩
+  · exact Or.inl ⟨d, e⟩
+  · refine Or.inr (Or.inl ⟨d, s'.p1, h1, by linarith, ?_⟩)
+    rw [e]
+    have : s'.p0 = 1 - s'.p1 := by linarith
+    rw [this]
+    apply C05.v2_ext <;> simp only [V2.add, V2.smul, V2.sub] <;> ring
+  · have := reduce2_mem sq s s' p hok h
+    rw [hss] at d ⊢
+    rcases this with ⟨d0, _⟩ | ⟨d1, _⟩ | hm
+    · omega
+    · omega
+    · exact Or.inr (Or.inr hm)
+
+def Live3 (s : Vs3 K) (c : CSO3 K) : Prop := c = s.v0 ∨ (1 ≤ s.dim ∧ c = s.v1) ∨ (2 ≤ s.dim ∧ c = s.v2)
+
+/-- **the kept sub-simplex contains the returned point, with the stored barycentric weights** (3-D, simplex of dimension ≤ 2):
+one old vertex with weight 1, an edge of old vertices with weights `proj[0..2] ≥ 0` summing to 1, or the whole triangle with
+weights `proj[0..3] ≥ 0` summing to 1 — and `p` is that weighted sum (this is what `gjk::result` multiplies the witnesses with). -/
+theorem reduce3_kept_partial (s s' : Vs3 K) (p : V3 K) (hok : Vs3Ok s) (hd : s.dim ≤ 2) :
+    letI := fieldNum K sq
+    s.projectOriginAndReduce = some (s', p) →
+    (s'.dim = 0 ∧ s'.p0 = 1 ∧ p = s'.v0.point ∧ Live3 s s'.v0) ∨
+    (s'.dim = 1 ∧ 0 ≤ s'.p0 ∧ 0 ≤ s'.p1 ∧ s'.p0 + s'.p1 = 1 ∧ p = (s'.v0.point.smul s'.p0).add (s'.v1.point.smul s'.p1)
+        ∧ Live3 s s'.v0 ∧ Live3 s s'.v1) ∨
+    (s'.dim = 2 ∧ 0 ≤ s'.p0 ∧ 0 ≤ s'.p1 ∧ 0 ≤ s'.p2 ∧ s'.p0 + s'.p1 + s'.p2 = 1 ∧
+        p = ((s'.v0.point.smul s'.p0).add (s'.v1.point.smul s'.p1)).add (s'.v2.point.smul s'.p2) ∧
+        s'.v0 = s.v0 ∧ s'.v1 = s.v1 ∧ s'.v2 = s.v2) := by
+  letI := fieldNum K sq
+  intro h
+  unfold Vs3.projectOriginAndReduce at h
+  split_ifs at h with h0 h1 h2 h3
+  · simp only [Option.some.injEq, Prod.mk.injEq] at h
+    obtain ⟨rfl, rfl⟩ := h
+    exact Or.inl ⟨h0, rfl, rfl, Or.inl rfl⟩
+  · dsimp only at h
+    have hl := C05.seg3_location_sound sq ⟨s.v0.point, s.v1.point⟩ V3.zero
+    generalize Segment3.projectLoc ⟨s.v0.point, s.v1.point⟩ V3.zero = r at h hl
+    obtain ⟨pp, loc⟩ := r
+    cases loc with
+    | vertex i =>
+      dsimp only at hl h
+      rcases hl with ⟨rfl, e⟩ | ⟨rfl, e⟩
+      · simp only [Option.some.injEq, Prod.mk.injEq] at h
+        obtain ⟨rfl, rfl⟩ := h
+        exact Or.inl ⟨rfl, rfl, e, Or.inl rfl⟩
+      · simp only [Option.some.injEq, Prod.mk.injEq] at h
+        obtain ⟨rfl, rfl⟩ := h
+        exact Or.inl ⟨rfl, rfl, e, Or.inr (Or.inl ⟨by omega, rfl⟩)⟩
+    | edge b0 b1 =>
+      dsimp only at hl h
+      simp only [Option.some.injEq, Prod.mk.injEq] at h
+      obtain ⟨rfl, rfl⟩ := h
+      obtain ⟨hb0, hb1, hs, e⟩ := hl
+      exact Or.inr (Or.inl ⟨h1, hb0, hb1, hs, e, Or.inl rfl, Or.inr (Or.inl ⟨by omega, rfl⟩)⟩)
+  · dsimp only at h
+    have hl := C05.tri3_location_sound sq ⟨s.v0.point, s.v1.point, s.v2.point⟩ V3.zero true
+    have hc := C05.tri3_location_contains sq ⟨s.v0.point, s.v1.point, s.v2.point⟩ V3.zero true (hok h2)
+    generalize Triangle3.projectLoc ⟨s.v0.point, s.v1.point, s.v2.point⟩ V3.zero true = r at h hl hc
+    obtain ⟨pp, loc⟩ := r
+    cases loc with
+    | vertex i =>
+      dsimp only at hl hc h
+      rcases hl with ⟨rfl, e⟩ | ⟨rfl, e⟩ | ⟨rfl, e⟩
+      · norm_num at h
+        obtain ⟨rfl, rfl⟩ := h
+        exact Or.inl ⟨rfl, rfl, e, Or.inl rfl⟩
+      · norm_num at h
+        obtain ⟨rfl, rfl⟩ := h
+        exact Or.inl ⟨rfl, rfl, e, Or.inr (Or.inl ⟨by omega, rfl⟩)⟩
+      · norm_num at h
+        obtain ⟨rfl, rfl⟩ := h
+        exact Or.inl ⟨rfl, rfl, e, Or.inr (Or.inr ⟨by omega, rfl⟩)⟩
+    | edge i b0 b1 =>
+      dsimp only at hl hc h
+      obtain ⟨_, hb0, hb1⟩ := hc
+      obtain ⟨hs, ⟨rfl, e⟩ | ⟨rfl, e⟩ | ⟨rfl, e⟩⟩ := hl
+      · simp only [Option.some.injEq, Prod.mk.injEq] at h
+        obtain ⟨rfl, rfl⟩ := h
+        exact Or.inr (Or.inl ⟨rfl, hb0, hb1, hs, e, Or.inl rfl, Or.inr (Or.inl ⟨by omega, rfl⟩)⟩)
+      · simp only [Option.some.injEq, Prod.mk.injEq] at h
+        obtain ⟨rfl, rfl⟩ := h
+        refine Or.inr (Or.inl ⟨rfl, hb1, hb0, by linarith, ?_, Or.inr (Or.inr ⟨by omega, rfl⟩), Or.inr (Or.inl ⟨by omega, rfl⟩)⟩)
+        rw [e]
+        apply C05.v3_ext <;> simp only [V3.add, V3.smul, Vs3.swap, Vs3.get, Vs3.set, Vs3.setPv, Vs3.getPv] <;> ring
+      · simp only [Option.some.injEq, Prod.mk.injEq] at h
+        obtain ⟨rfl, rfl⟩ := h
+        exact Or.inr (Or.inl ⟨rfl, hb0, hb1, hs, e, Or.inl rfl, Or.inr (Or.inr ⟨by omega, rfl⟩)⟩)
+    | face sd b0 b1 b2 =>
+      dsimp only at hl hc h
+      simp only [Option.some.injEq, Prod.mk.injEq] at h
+      obtain ⟨rfl, rfl⟩ := h
+      exact Or.inr (Or.inr ⟨h2, hc.1, hc.2.1, hc.2.2, hl.2.1, hl.2.2, rfl, rfl, rfl⟩)
+    | solid => exact absurd hc (by simp)
+  · omega
+
 end C01
